@@ -11,6 +11,7 @@ from contracts import c_index, c_step, c_blocks
 OWNERS = [
     ("digital_rf_create_rf_data_index.T_unbounded", ("C04", "C06", "C19", "C01")),
     ("L-wf-transitive", ("C04", "C06", "C19", "C01", "C05")),
+    ("L-fstart-unique", ("C04", "C06", "C19", "C01", "C07")),
     ("digital_rf_create_rf_data_index.reject_unbounded", ("C05",)),
     ("digital_rf_create_rf_data_index.reject", ("C05",)),
     ("digital_rf_create_rf_data_index.accepts_wellformed", ("C05", "C01")),
@@ -131,6 +132,10 @@ def add_step_obligations(ck, tu, X, want, units=("index", "step", "blocks")):
             "samples_to_write (T_unbounded), reject-iff-malformed (reject_unbounded), get_global_sample (unbounded); still bounded: exact rows / row_count "
             "of the second pass and write_rf_data_index's rebasing loop" % LM)
     if "step" in units:
+        import z3 as _z
+        from spec.timespec import ceil_is as _ceil_is
+        xa, xb, N_, D_ = _z.Ints("xa xb N D")
+        take([Obl("L-fstart-unique", "spec", 0, [D_ > 0, _ceil_is(xa, N_, D_), _ceil_is(xb, N_, D_)], xa == xb, kind="lemma")])
         for sc in ("fresh", "open"):
             it = cfront.CInterp(tu, externals=X, config={"inline": c_step.INLINE, "specs": {}, "prune_full": False})
             ctx = c_step.run_step(it, sc)
